@@ -2551,13 +2551,20 @@ impl Melda {
         rt: &RevisionTree,
     ) -> Result<Option<Map<String, Value>>> {
         let new_descriptor = ArrayDescriptor::new_from_object(obj).expect("malformed_descriptor");
+        let winner = rt.get_winner().expect("no_winner");
         let winning_order = self
-            .rebuild_array_order(rt.get_winner().expect("no_winner"), rt)
+            .rebuild_array_order(winner, rt)
             .expect("expecting_winning_order");
         let new_order = new_descriptor.get_order().as_ref().unwrap();
         let patch = make_diff_patch(&winning_order, new_order).expect("failed_diffing");
         if patch.is_empty() {
-            Ok(None)
+            if winner.is_deleted() {
+                // The array was deleted and is submitted again as an empty array: it has to be
+                // re-created (as a full descriptor), an empty script would leave it deleted
+                Ok(Some(new_descriptor.to_json_object()))
+            } else {
+                Ok(None)
+            }
         } else {
             Ok(Some(
                 ArrayDescriptor::new_from_patch(patch).to_json_object(),
